@@ -886,7 +886,7 @@ func (c *converter) popEndLabel() string {
 }
 
 func (c *converter) nextEndLabel() string {
-	c.endLabels = append(c.endLabels, fmt.Sprintf(":_e%d", len(c.endLabels)))
+	c.endLabels = append(c.endLabels, fmt.Sprintf(":_e%d", c.forCounter-1)) // Same number as the loop's label to make sure every end label is unique.
 	return c.mustCurrentEndLabel()
 }
 
